@@ -50,7 +50,7 @@ def generate_all():
                 text = src.text[o + 1:c]
                 lines = (src.line_of(o), src.line_of(c))
             else:
-                text, lines = src.region(r["fn"], r["first"], r.get("last"), r.get("within"), r.get("fn_ordinal", 0), r.get("first_ordinal", 0), r.get("until"))
+                text, lines = src.region(r["fn"], r.get("first"), r.get("last"), r.get("within"), r.get("fn_ordinal", 0), r.get("first_ordinal", 0), r.get("until"), r.get("after_loop"))
             pre = r.get("prelude", "")
             post = r.get("postlude", "")
             if r.get("wrap_loop"):
